@@ -22,6 +22,7 @@ func init() {
 			checkReplySinkGuards(c)
 			c.Clause("3 handler")
 			checkOversizeHandler(c)
+			checkErrorIdentity(c, scopeReplyPath, nil, 6)
 			c.Clause("4 event truncation")
 			checkEventBuffer(c, true)
 		},
